@@ -29,4 +29,4 @@ pub fn leaf_contracts_on() -> bool {
     m == MODE_L1A || m == MODE_L1B
 }
 
-pub use crate::framework::verif_kani::{new_unchecked_impl as new_unchecked, transition_any_action_impl as transition_any_action, VD, VT};
+pub use crate::framework::verif_kani::{aa_calls, aa_duration, aa_last, aa_timeout, new_unchecked_impl as new_unchecked, transition_any_action_impl as transition_any_action, AnyAction, VD, VT};
